@@ -764,6 +764,16 @@ func HasUF(roots ...*Term) bool {
 	return false
 }
 
+// HasUFOtherThanMath reports uninterpreted heads the evaluator cannot compute.
+func HasUFOtherThanMath(roots ...*Term) bool {
+	for _, t := range Topo(roots...) {
+		if t.Op == "uf" && !strings.HasPrefix(t.Name, "math.") {
+			return true
+		}
+	}
+	return false
+}
+
 // String renders a compact prefix form for evidence samples and debugging.
 func (t *Term) String() string {
 	var b strings.Builder
